@@ -190,6 +190,44 @@ theorem smul_div (P : ℕ) (W : List ℤ) (h : ∀ x ∈ W, (P : ℤ) ∣ x) :
   intro x hx
   exact Int.mul_ediv_cancel' (h x hx)
 
+/-! ## small shared algebra -/
+
+theorem two_normInf_le_of {l : List ℤ} {P : ℕ} (h : ∀ c ∈ l, 2 * c.natAbs ≤ P) : 2 * normInf l ≤ P := by
+  have : normInf l ≤ P / 2 := normInf_le_iff.mpr (fun x hx => by have := h x hx; omega)
+  omega
+
+section alg
+variable {qs : List ℕ} {n : ℕ} [Good qs n]
+
+/-- `P⁻¹·P = 1` -/
+theorem pinvElt_mul_constQ {ps : List ℕ} (hcop : ∀ q ∈ qs, Nat.Coprime (RPoly.prod ps) q) :
+    pinvElt qs ps n * constQ qs n (RPoly.prod ps) = rpOne qs n := by
+  have h := hP_closed (qs := qs) (n := n) ps hcop
+  obtain ⟨P, hP⟩ := exists_lift _ (constQ_wf (qs := qs) (n := n) (RPoly.prod ps))
+  obtain ⟨I, hI⟩ := exists_lift _ (pinvElt_wf (qs := qs) (n := n) ps)
+  rw [← hP, ← hI] at h ⊢
+  have h' : P * I = 1 := val_injective h
+  show val (I * P) = val (1 : WFPoly qs n)
+  rw [mul_comm, h']
+
+/-- `P·A = P·B ⟹ A = B` when `P` is invertible -/
+theorem cancel_P {P pinv A B : RPoly} (hPw : WFq qs n P) (hpw : WFq qs n pinv) (hA : WFq qs n A)
+    (hB : WFq qs n B) (hP : pinv * P = rpOne qs n) (h : P * A = P * B) : A = B := by
+  obtain ⟨P, rfl⟩ := exists_lift P hPw
+  obtain ⟨pinv, rfl⟩ := exists_lift pinv hpw
+  obtain ⟨A, rfl⟩ := exists_lift A hA
+  obtain ⟨B, rfl⟩ := exists_lift B hB
+  have hP' : pinv * P = 1 := val_injective hP
+  have h' : P * A = P * B := val_injective h
+  congr 1
+  calc A = (pinv * P) * A := by rw [hP', one_mul]
+    _ = pinv * (P * A) := by ring
+    _ = pinv * (P * B) := by rw [h']
+    _ = (pinv * P) * B := by ring
+    _ = B := by rw [hP', one_mul]
+
+end alg
+
 /-! ## the digit magnitudes `D_ij` -/
 
 /-- the bound matrix the decomposition parameters fix: `⌈q_i/2⌉` for a single-prime RNS digit (copy branch),
